@@ -2084,6 +2084,33 @@ theorem family_step (S : Schema) (htr : compatTransB S = true) (hts : TextLoop S
         (fun _ _ hc => by cases hc)⟩,
       C01.apply_valid S (.removeNodeMark pos m) d d' hv trivial h, nodeStep_norm S d d' n u pos _ _ hn hu hr⟩
 
+/-- **the inverse of an applied replace-around step restores the document — every guard that can be discharged,
+    discharged**: valid normal-form document, normal-form well-formed slice, `insert ≤ slice.size`, ordered gap, the
+    step applied; schema with transitive `compatible_content` (`compatTransB`: the final replace of the inverse, finding
+    C04-nontransitive-join otherwise); no text outside the BMP in the two documents (every pair-alignment proviso,
+    `Step.invert` raising included).  Left: `hst`, the structure checks of the inverse when the step carries the
+    structure flag (finding C04-structure-inverse).  No fit guard: the gap may lie anywhere (finding
+    C04-around-text-gap is repaired). -/
+theorem replaceAround_undo_bmp (S : Schema) (htr : compatTransB S = true) (d d' : Node) (f t gf gt : Nat)
+    (sl : Slice) (ins : Nat) (b : Bool)
+    (hv : S.checkNode d = true) (hn : fnorm d.kids = true) (hsn : fnorm sl.content = true)
+    (hwf : sl.wf = true) (hins : (ins : Int) ≤ sl.size) (hgo : f ≤ gf ∧ gf ≤ gt ∧ gt ≤ t)
+    (h : S.apply (.replaceAround f t gf gt sl ins b) d = .ok d')
+    (hst : b = true → contentBetween d' f (f + ins) = some false ∧
+      contentBetween d' (f + ins + (gt - gf)) (f + sl.size.toNat + (gt - gf)) = some false)
+    (hb : bmpDoc d = true) (hb' : bmpDoc d' = true) :
+    ∃ inv, S.invert (.replaceAround f t gf gt sl ins b) d = .ok inv ∧ S.apply inv d' = .ok d := by
+  obtain ⟨inv, hi, hra⟩ := undoCutAligned_of_bmp S (.replaceAround f t gf gt sl ins b) d d' hn hb h
+    (by intro f' t' gf' gt' sl' ins' b' e; cases e; exact hgo)
+  have hj : sidesCompatibleAround S d f t gf gt sl ins = true := by
+    obtain ⟨gap, inserted, hgap, _, _, hinst, hfr1⟩ := apply_replaceAround_parts S d d' f t gf gt sl ins b h
+    obtain ⟨ty, a, m, K, K', rfl, rfl, hr1⟩ := fromReplace_elem S d d' f t inserted hfr1
+    have := sidesCompatible_of_trans S (compatTrans_of_B S htr) ty a m K K' f t inserted hn hr1
+    simpa [sidesCompatibleAround, hgap, hinst] using this
+  have ha := fun p => alignedAt_of_bmp d'.kids p hb'
+  exact ⟨inv, hi, replaceAround_undo_aligned S d d' f t gf gt sl ins b inv hv hn hsn hwf hins hgo h hi hst hj
+    ⟨ha _, ha _, ha _, ha _⟩ hra⟩
+
 /-- **the history clause for the bundled family**: schema with transitive `compatible_content`
     (`compatTransB`) and `TextLoop`; `doc` valid and in normal form; any replayed history
     (`replay S doc steps = some (docs, fin)` — every history built through the transform API is one,
